@@ -188,6 +188,18 @@ def rule_d(ctx):
         for p in init.params[1:]:
             ev = E.events_on(init, p)
             ctx.ob(R, init.qname, f"argument `{p}` is not modified", not ev, "; ".join(str(e) for e in ev[:2])[:240], init.node)
+            # ... and it enters the geometry as passed: a re-binding may convert it (asarray / array / copy / float of the whole value) but not
+            # replace it by a part or a summary of itself (one entry, a mean, ...), which silently integrates with other weights
+            for s_ in ast.walk(init.node):
+                if not (isinstance(s_, ast.Assign) and any(isinstance(t_, ast.Name) and t_.id == p for t_ in s_.targets)):
+                    continue
+                v = s_.value
+                conv = isinstance(v, ast.Call) and norm(v.func) in ("np.asarray", "np.array", "np.atleast_1d", "np.copy", "float", "np.float64", "list", f"{p}.copy", f"{p}.astype") \
+                    and (not v.args or norm(v.args[0]) == p or norm(v.func).startswith(f"{p}."))
+                partial = any(isinstance(x, ast.Subscript) and p in {y.id for y in ast.walk(x.value) if isinstance(y, ast.Name)} for x in ast.walk(v)) \
+                    or any(isinstance(x, ast.Call) and norm(x.func).split(".")[-1] in ("mean", "sum", "min", "max", "median", "average", "item") and p in {y.id for y in ast.walk(x) if isinstance(y, ast.Name)} for x in ast.walk(v))
+                ctx.ob(R, init.qname, f"argument `{p}` enters the geometry as passed (re-binding `{norm(s_)[:50]}` only converts it)", conv,
+                       f"`{norm(s_)[:80]}` replaces the argument by a part / summary of itself" if partial else "", s_, evidence=partial)
     ctx.floor(R, 4)
 
 
